@@ -112,34 +112,43 @@ def check_returns(rep, facts):
                 inner = ir.peel(agg_field(v, 0))
                 if variant_of(inner) != 'Ok':
                     continue
-                cnt = ir.peel(agg_field(inner, 0))
-                if cv(cnt) == 0:
-                    kinds.add('zero')
-                elif cnt[0] == 'field' and cnt[2] == 'stream' and any(y[0] == 'call' and y[1] == E.STR_PARSE for y in ir.walk(cnt)):
-                    kinds.add('parse-count')
-                elif any(y[0] == 'call' and y[1].endswith("::write") and len(y[2]) == 2 and E.subject_class(y[2][1]) == 'stream_buf' for y in ir.walk(cnt)):
-                    kinds.add('copy-count')
-                else:
-                    bad.append(ir.show(cnt)[:60])
+                cnt0 = ir.peel(ir.simplify(agg_field(inner, 0)))
+                for cnt in ([ir.peel(x) for x in cnt0[1]] if cnt0[0] == 'phi' else [cnt0]):
+                    if cv(cnt) == 0:
+                        kinds.add('zero')
+                    elif cnt[0] == 'field' and cnt[2] == 'stream' and any(y[0] == 'call' and y[1] == E.STR_PARSE for y in ir.walk(cnt)):
+                        kinds.add('parse-count')
+                    elif any(y[0] == 'call' and y[1].endswith("::write") and len(y[2]) == 2 and E.subject_class(y[2][1]) == 'stream_buf' for y in ir.walk(cnt)):
+                        kinds.add('copy-count')
+                    else:
+                        bad.append(ir.show(cnt)[:60])
     if bad or not {'parse-count', 'copy-count', 'zero'} <= kinds:
         rep.violation("R9.3", "poll_input/reported-count", "success counts are %s (+%s); expected {0, bytes copied from the stream buffer, status.stream of the parse}" % (sorted(kinds), bad), b.loc())
     else:
         rep.ok("R9.3", "poll_input/reported-count", "Ready(Ok(n)): n is 0 (nothing asked / already buffered), the bytes copied out of stream_buffer(), or status.stream of the parse", b.loc())
     # the caller's buffer flows only into parse(_, Some(buf)) and the copy from stream_buffer()
-    r = ir.Resolver(b)
     uses = []
-    for bi, blk in enumerate(b.blocks):
-        t = blk["t"]
-        if t["k"] == "call" and not t.get("sp", {}).get("n") and "path" in t["func"]:
-            name = F.norm(t["func"]["res"]["path"] if t["func"].get("res") else t["func"]["path"])
-            for ai, a in enumerate(t["args"]):
-                e = ir.peel(r.operand(a, (bi, -1)))
-                while e[0] in ('field', 'variant') or (e[0] == 'call' and (ir.is_transparent(e[1]) or e[1].endswith("as_deref_mut")) and e[2]):
-                    e = ir.peel(e[1] if e[0] != 'call' else e[2][0])
-                if e[0] == 'param' and e[2] == 'dest':
-                    if ir.is_transparent(name) or name.endswith("as_deref_mut") or name.endswith("PtrMetadata"):
-                        continue
-                    uses.append((name, ai))
+
+    def scan(body, pidx, depth=0):
+        """call sites that receive (something derived from) parameter `pidx` of `body`; helpers new to the tree are looked into"""
+        r = ir.Resolver(body)
+        for bi, blk in enumerate(body.blocks):
+            t = blk["t"]
+            if t["k"] == "call" and not t.get("sp", {}).get("n") and "path" in t["func"]:
+                name = F.norm(t["func"]["res"]["path"] if t["func"].get("res") else t["func"]["path"])
+                for ai, a in enumerate(t["args"]):
+                    e = ir.peel(r.operand(a, (bi, -1)))
+                    while e[0] in ('field', 'variant') or (e[0] == 'call' and (ir.is_transparent(e[1]) or e[1].endswith("as_deref_mut")) and e[2]):
+                        e = ir.peel(e[1] if e[0] != 'call' else e[2][0])
+                    if e[0] == 'param' and e[1] == pidx:
+                        if ir.is_transparent(name) or name.endswith("as_deref_mut") or name.endswith("PtrMetadata"):
+                            continue
+                        if depth < 3 and facts.is_new_helper(name):
+                            for cb in facts.by_npath.get(name, []):
+                                scan(cb, ai + 1, depth + 1)
+                            continue
+                        uses.append((name, ai))
+    scan(b, 3)      # poll_input(self, cx, dest)
     allowed = {(E.STR_PARSE, 2)}
     extra = [u for u in uses if u not in allowed and not (u[0].endswith("::write") and u[1] == 0)]
     if extra:
@@ -230,13 +239,10 @@ def check_writeable(rep, facts):
                         why = "raised only when is_final_stream() holds after a parse that reported data or end of the active stream"
                     (rep.ok if ok else rep.violation)("R9.4", "%s/writeable-guard" % label, why if ok else "the writeable flag can be raised without %s" % ("the single-input-stream test" if label == "new" else "is_final_stream() after data/end of the active stream"), loc)
     # R9.5: StreamWriter construction sites
-    for (b, bi, si, st) in F.aggregates_of(facts, "async_io::StreamWriter"):
-        loc = "%s:%d" % (st["sp"]["f"], st["sp"]["l"])
+    for (b, bi, fexpr, loc) in common.construction_sites(facts, "async_io::StreamWriter"):
         if b.raw.get("impl_trait") and F.norm(b.raw["impl_trait"]) == "std::clone::Clone":
-            r = ir.Resolver(b)
-            f = dict(zip(st["rv"]["fields"], st["rv"]["ops"]))
-            w = ir.peel(r.operand(f["writer"], (bi, si)))
-            ok = w[0] == 'call' and w[1].endswith("Clone>::clone") and variant_of(r.operand(f["lock"], (bi, si))) == 'None'
+            w = ir.peel(fexpr["writer"])
+            ok = w[0] == 'call' and w[1].endswith("Clone>::clone") and variant_of(fexpr["lock"]) == 'None'
             (rep.ok if ok else rep.violation)("R9.5", "writer-clone", "clone shares the writer Arc and starts without a lock" if ok else "Clone builds %s" % ir.show(w)[:50], loc)
             continue
         gg = ieg.IEG(facts, b, inline_filter=lambda x: False)
@@ -256,9 +262,7 @@ def check_writeable(rep, facts):
         md = common.must_dataflow(gg, frozenset(), eff)
         node = [n for n in gg.all_nodes() if n.bb == bi and n.frame is gg.root]
         st_ = md.get(node[0].key, frozenset()) if node else frozenset()
-        r = ir.Resolver(b)
-        f = dict(zip(st["rv"]["fields"], st["rv"]["ops"]))
-        head = ir.peel(r.operand(f["head"], (bi, si)))
+        head = ir.peel(fexpr["head"])
         idok = head[0] == 'call' and head[1] == "protocol::RecordHeader::new" and any(y[0] == 'field' and y[2] == 'request_id' for y in ir.walk(head[2][1])) and ir.peel(head[2][0])[0] == 'param'
         ok = {"W", "MEMBER"} <= st_ and idok
         (rep.ok if ok else rep.violation)("R9.5", "writer-construction/%s" % b.npath.split("::")[-1],
